@@ -1,0 +1,26 @@
+//go:build verif
+
+package account
+
+import (
+	atypes "github.com/rigochain/rigo-go/ctrlers/types"
+	"github.com/rigochain/rigo-go/ledger"
+	"github.com/rigochain/rigo-go/types/xerrors"
+)
+
+// VerifReadAllAt iterates every account committed at `height` (0 = working tree's last saved version). Read-only.
+func (ctrler *AcctCtrler) VerifReadAllAt(height int64, cb func(*atypes.Account)) error {
+	var l ledger.ILedger[*atypes.Account]
+	if height <= 0 {
+		return ctrler.acctLedger.IterateReadAllItems(func(a *atypes.Account) xerrors.XError { cb(a); return nil })
+	}
+	l, xerr := ctrler.acctLedger.ImmutableLedgerAt(height, 0)
+	if xerr != nil {
+		return xerr
+	}
+	return l.IterateReadAllItems(func(a *atypes.Account) xerrors.XError { cb(a); return nil })
+}
+
+func (ctrler *AcctCtrler) VerifLedger() ledger.IFinalityLedger[*atypes.Account] {
+	return ctrler.acctLedger
+}
